@@ -1974,9 +1974,67 @@ def c10_axis(m, o):
 
 
 ORACLES = {"c01": c01, "c02": c02, "c18": c18}
+def c18_timefuncs(m, o):
+    """rates and adjustments given by the library's own time functions over non-negative data (ending or starting at
+    zero in particular) are non-negative at every time - before the first point, at the points, between them and after
+    the last one - so an empty compartment is not drained"""
+    import random
+    from jax import numpy as jnp
+    from summer2 import CompartmentalModel
+    from summer2.parameters import Time
+    from summer2.functions.time import (get_sigmoidal_interpolation_function, get_linear_interpolation_function,
+                                        get_piecewise_function)
+    rng = random.Random(o.get("seed", 0))
+    viol, checks = [], 0
+    for case in range(o.get("n", 8)):
+        npts = rng.randint(2, 5)
+        xs = sorted(rng.sample(range(0, 60, 5), npts))
+        ys = [rng.choice([0.0, 0.0, 0.05, 0.1, 0.3]) for _ in range(npts)]
+        if case % 2 == 0:
+            ys[-1], ys[-2] = 0.0, rng.choice([0.05, 0.1, 0.3])      # the last segment falls to zero
+        else:
+            ys[0], ys[1] = 0.0, rng.choice([0.05, 0.1, 0.3])        # the first segment rises from zero
+        kind = ["sig", "sig4", "lin", "pw", "sig4", "sig", "pw", "lin"][case % 8]
+        if kind == "sig":
+            f = get_sigmoidal_interpolation_function([float(v) for v in xs], ys)
+        elif kind == "sig4":
+            f = get_sigmoidal_interpolation_function([float(v) for v in xs], ys, curvature=4.0)
+        elif kind == "lin":
+            f = get_linear_interpolation_function([float(v) for v in xs], ys)
+        else:
+            f = get_piecewise_function([float(v) for v in xs], ys + [0.0])
+        mm = CompartmentalModel([0.0, 2.0], ["S", "I", "R", "V"], ["I"], timestep=1.0)
+        mm.set_initial_population({"S": 990.0, "I": 10.0})
+        mm.add_infection_frequency_flow("inf", 0.3, "S", "I")
+        mm.add_transition_flow("rec", 0.1, "I", "R")
+        mm.add_transition_flow("vac", f, "S", "V")
+        mm.add_transition_flow("wane", 0.05, "V", "S")
+        runner = mm.get_runner({}, jit=False)
+        times = [xs[0] - 7.5, float(xs[0]), (xs[0] + xs[1]) / 2, float(xs[-1]), xs[-1] + 0.5, xs[-1] + 30.0, xs[-1] + 400.0]
+        for t in times:
+            for x in ([500.0, 20.0, 480.0, 0.0], [0.0, 20.0, 480.0, 500.0], [990.0, 10.0, 0.0, 0.0]):
+                r = runner.impl_dict["one_step"]({}, t, jnp.array(x))
+                fr, cr = np.asarray(r.flow_rates, dtype=float), np.asarray(r.comp_rates, dtype=float)
+                checks += 1
+                if not (np.isfinite(fr).all() and np.isfinite(cr).all()):
+                    continue
+                if fr.min() < -1e-12 * (1 + np.abs(fr).max()):
+                    viol.append("%s function through %s / %s as a vaccination rate: flow rate %r at t=%r, state %s"
+                                % (kind, xs, ys, float(fr.min()), t, x))
+                    break
+                bad = [j for j in range(4) if x[j] <= 0 and cr[j] < -1e-12 * (1 + np.abs(fr).max())]
+                if bad:
+                    viol.append("%s function through %s / %s: empty compartment %s has rate %r at t=%r" % (kind, xs, ys, mm.compartments[bad[0]], float(cr[bad[0]]), t))
+                    break
+            else:
+                continue
+            break
+    return {"checks": checks, "violations": viol[:6]}
+
+
 MODEL_ORACLES = {"c02_traj": c02_traj, "c13": c13, "c12": c12, "c12_dates": c12_dates,
                  "c07": c07, "c07_closed": c07_closed, "c16": c16, "c14": c14, "c08": c08, "c09": c09, "c10": c10, "c04": c04, "c18_traj": c18_traj, "c06": c06, "c05": c05, "c03": c03, "c15": c15, "c11": c11, "c10_axis": c10_axis, "c12_grid": c12_grid,
-                 "c18_disparity": c18_disparity}
+                 "c18_disparity": c18_disparity, "c18_timefuncs": c18_timefuncs}
 
 
 def run_oracle(m, o):
